@@ -211,6 +211,8 @@ func (n *node) coq(b *strings.Builder) {
 		fmt.Fprintf(b, "SClone %d %d", n.r, n.v)
 	case "store":
 		fmt.Fprintf(b, "SStore %d %d", n.r, n.v)
+	case "bind":
+		fmt.Fprintf(b, "SBind %d %d", n.r, n.v)
 	case "escape":
 		fmt.Fprintf(b, "SEscape %d", n.v)
 	case "ret", "skip":
@@ -474,6 +476,9 @@ func (a *analyzer) run(n *node, st astate) (astate, astate) {
 		if xr&sharedBit == 0 {
 			// a private object: it now also shows what v shows
 		} else {
+			if n.v >= 0 && n.v < len(st) {
+				st[n.v] |= sharedBit // stored into somebody else's object: no longer private
+			}
 			if a.keepable(xr) {
 				// a parameter object the caller owns: record the link for the call sites
 				for p := 0; p < a.np; p++ {
@@ -485,6 +490,13 @@ func (a *analyzer) run(n *node, st astate) (astate, astate) {
 			a.check(vr, n, true)
 		}
 		st[n.r] = xr | vr&^sharedBit
+	case "bind":
+		if n.r != n.v {
+			st[n.r] = get(n.r) | get(n.v)
+			if n.v >= 0 && n.v < len(st) {
+				st[n.v] = opaqueBit | sharedBit
+			}
+		}
 	case "escape":
 		a.check(get(n.v), n, true)
 		if n.pos >= 0 {
